@@ -537,7 +537,68 @@ def _copy_gathers_before_loading(col, rule="C20.R5"):
             S.show(src)[:80] if src is not None else "")
 
 
+def _dump_in_registration_order(col, rule="C20.R5"):
+    """the dumped text lists the definitions in the order of Manager.tasks (a dict: registration order, the same in every build and
+    under every hash seed); a schedule computed by find_tasks / toposort starts from sets of references, whose iteration order follows
+    the hash seed and the width of the compiled hash (see the known finding on find_taskids)"""
+    repo = col.repo
+    sx = sctx(repo, "Manager", "dump", keep={"find_tasks", "find_taskids", "iter_tasks"})
+    bad = [A.src(n)[:60] for n in ast.walk(sx.fn) if isinstance(n, ast.Call) and isinstance(n.func, ast.Name) and n.func.id == "__xsa_inlined__"
+           and n.args and isinstance(n.args[0], ast.Constant) and str(n.args[0].value).split(".")[-1] in ("toposort", "find_tasks", "find_taskids")]
+    for ev in sx.of_kind("call"):
+        for t in S.subterms(ev.term):
+            if S.is_call_of(t) and t[1][:1] == ("attr",) and t[1][2] in ("find_tasks", "find_taskids", "iter_tasks") or \
+                    (S.is_call_of(t) and t[1] in (("glob", "toposort"),)):
+                bad.append(S.show(t)[:60])
+    for r in sx.of_kind("return"):
+        for t in S.subterms(r.value):
+            if S.is_call_of(t) and ((t[1][:1] == ("attr",) and t[1][2] in ("find_tasks", "find_taskids", "iter_tasks"))
+                                    or t[1] in (("glob", "toposort"),)):
+                bad.append(S.show(t)[:60])
+    uses_tasks = any(S.contains(r.value, lambda t: t == S.sattr("tasks")) for r in sx.of_kind("return"))
+    if not bad and not uses_tasks:
+        raise AnalysisError("Manager.dump: where the listed definitions come from is not recognised -- cannot decide")
+    col.add(rule, "Manager.dump#definitions-in-registration-order", not bad, sx.loc(sx.fn),
+            "dump() lists the definitions as Manager.tasks holds them; it does not order them by a set-seeded schedule",
+            "; ".join(dict.fromkeys(bad)), positive=True)
+
+
+def _no_field_assignment_on_references(col, rule="C20.R4"):
+    """assigning a declared field of a reference object (`ref._manager = x`) is refused by the compiled classes (read-only extension
+    attribute, AttributeError) and silently performed by the pure-Python ones (known finding on MutableRef.__setattr__): code that
+    does it -- with or without catching the AttributeError -- behaves differently in the two builds"""
+    repo = col.repo
+    rmod = repo.cls("BaseRef").module
+    fields = set()
+    for c in rmod.classes.values():
+        for n in ast.walk(c.node):
+            if isinstance(n, ast.Assign) and isinstance(n.value, ast.Call) and (A.dotted(n.value.func) or "") == "cython.declare":
+                fields |= {t.id for t in n.targets if isinstance(t, ast.Name)}
+    if not {"_manager", "_owner", "_key", "_hash"} <= fields:
+        raise AnalysisError(f"refs: declared fields of the reference classes not recognised ({sorted(fields)}) -- cannot decide")
+    n = 0
+    for m, c, fn in repo.all_functions():
+        n += 1
+        for x in ast.walk(fn):
+            tg = x.targets if isinstance(x, ast.Assign) else [x.target] if isinstance(x, (ast.AugAssign, ast.AnnAssign)) else []
+            for t in tg:
+                for el in (t.elts if isinstance(t, (ast.Tuple, ast.List)) else [t]):
+                    if isinstance(el, ast.Attribute) and el.attr in fields and not (isinstance(el.value, ast.Name) and el.value.id == "self"):
+                        col.add(rule, f"{(c.name + '.') if c else ''}{fn.name}#no-field-assignment-on-a-reference:{el.attr}", False, m.loc(x),
+                                "no declared field of a reference is assigned from outside its constructor", A.src(x)[:80], positive=True)
+            if isinstance(x, ast.Call) and isinstance(x.func, ast.Name) and x.func.id == "setattr" and len(x.args) == 3 \
+                    and isinstance(x.args[1], ast.Constant) and x.args[1].value in fields and not (isinstance(x.args[0], ast.Name) and x.args[0].id == "self"):
+                col.add(rule, f"{(c.name + '.') if c else ''}{fn.name}#no-field-assignment-on-a-reference:{x.args[1].value}", False, m.loc(x),
+                        "no declared field of a reference is assigned from outside its constructor", A.src(x)[:80], positive=True)
+    col.ok(rule, "package#no-field-assignment-on-a-reference", "xdeps/", "no declared field of a reference is assigned from outside its constructor",
+           f"{n} functions scanned for assignments to {sorted(fields)} on an object other than self")
+
+
 def check(col: Collector):
+    with col.rule():
+        _no_field_assignment_on_references(col)
+    with col.rule():
+        _dump_in_registration_order(col)
     with col.rule():
         _no_semantic_directives(col)
     with col.rule():
